@@ -349,6 +349,35 @@ pub fn run_c08(ctx: &mut Ctx) {
         let Ok(Ok(bytes)) = guarded(move || IDLArgs { args: vec![v] }.to_bytes_with_types(&e1, &[t1])) else { continue };
         emit_decode(ctx, &es[j], env, ty, &bytes);
     }
+    // map-shaped corpus types (vec record { 0 : K; 1 : V }) against wire entries with a component missing and / or a
+    // surplus field: the record rule allows that whenever the missing component is optional
+    for (j, e) in es.iter().enumerate() {
+        let (env, ty) = (&tys[j].0, &tys[j].1);
+        let TypeInner::Vec(entry) = ty.as_ref() else { continue };
+        let TypeInner::Record(fs) = entry.as_ref() else { continue };
+        if fs.len() != 2 || fs[0].id.get_id() != 0 || fs[1].id.get_id() != 1 {
+            continue;
+        }
+        let extra = candid::types::internal::Field { id: std::rc::Rc::new(candid::types::Label::Id(2)), ty: TypeInner::Nat8.into() };
+        let shapes: Vec<Vec<candid::types::internal::Field>> = vec![
+            vec![fs[0].clone()],
+            vec![fs[1].clone()],
+            vec![fs[0].clone(), extra.clone()],
+            vec![fs[1].clone(), extra.clone()],
+            vec![fs[0].clone(), fs[1].clone(), extra.clone()],
+            vec![],
+        ];
+        for shape in shapes {
+            let wt: Type = TypeInner::Vec(TypeInner::Record(shape).into()).into();
+            for _ in 0..2 {
+                let mut budget = 30;
+                let Some(v) = gen::value(&mut ctx.rng, env, &wt, &mut budget) else { continue };
+                let (e1, t1) = (env.clone(), wt.clone());
+                let Ok(Ok(bytes)) = guarded(move || IDLArgs { args: vec![v] }.to_bytes_with_types(&e1, &[t1])) else { continue };
+                emit_decode(ctx, e, env, ty, &bytes);
+            }
+        }
+    }
     // layout-alikes by hand: text vs blob, nat vs nat8, principal vs blob, vec nat8 vs vec int8
     let alikes: Vec<(&str, &str)> = vec![
         ("4449444c0001710568656c6c6f", "ByteBuf"),
